@@ -202,6 +202,8 @@ type lfEnv struct {
 	// exprs of expanded locals (object -> initialiser) so that arithmetic locals fold too
 	inits map[types.Object]ast.Expr
 	depth int
+	// values of locals during sequential symbolic execution (symexec.go); consulted first
+	vals map[types.Object]*poly
 }
 
 // newLFEnv prepares folding inside a function body: single-assignment locals (any initialiser) are
@@ -287,6 +289,9 @@ func (env *lfEnv) fold(e ast.Expr) (*poly, error) {
 	switch x := e.(type) {
 	case *ast.Ident:
 		if o := identObj(info, x); o != nil {
+			if v, ok := env.vals[o]; ok {
+				return v, nil
+			}
 			if init, ok := env.inits[o]; ok && env.depth < 12 && isNumeric(o.Type()) {
 				env.depth++
 				p, err := env.fold(init)
@@ -413,4 +418,17 @@ func (c *Ctx) setterCalls(info *types.Info, body ast.Node, field string, o *cano
 		return true
 	})
 	return out
+}
+
+// rename maps atoms through f.
+func (p *poly) rename(f func(string) string) *poly {
+	out := &poly{}
+	for _, t := range p.norm().terms {
+		e := map[string]int{}
+		for a, k := range t.exps {
+			e[f(a)] += k
+		}
+		out.terms = append(out.terms, mono{coef: new(big.Rat).Set(t.coef), exps: e})
+	}
+	return out.norm()
 }
